@@ -51,7 +51,7 @@ func isSQLWrite(f *types.Func) bool {
 }
 
 func checkC09(r *core.Run) {
-	r.Explain = "Decided statically: (C09.all) every UndoExecutor.ExecuteOn the holder can return reaches its first compensating statement (Prepare/Exec on the connection) only after dataValidationAndGoOn answered (true, nil), and returns without writing when it answers false; (C09.threeway) inside the validation (true,nil) is returned only when validation is disabled or equals(after, current); equals(before, after) or equals(before, current) yield (false,nil); everything else is a non-nil error; errors of IsRecordsEquals / the current-row query propagate; (C09.status) with C01.status that error reaches BranchRollback as a failure status and the undo transaction is rolled back (C01.tx), so neither rows nor undo log are touched. (C09.equal) structural part of the equality: in the records/rows comparison a field or nested comparison that answers 'not equal' makes the whole answer false, and the value normaliser of the field equality (the function answering (float64, true)) accepts numeric reflect kinds only, so strings, byte slices and times are compared exactly. NOT decided: the remaining value semantics of the equality (floating-point comparison of 64-bit integers beyond 2^53, see C08's BIGINT finding) and the histories."
+	r.Explain = "Decided statically: (C09.all) every UndoExecutor.ExecuteOn the holder can return reaches its first compensating statement (Prepare/Exec on the connection) only after dataValidationAndGoOn answered (true, nil), and returns without writing when it answers false; (C09.threeway) inside the validation (true,nil) is returned only when validation is disabled or equals(after, current); equals(before, after) or equals(before, current) yield (false,nil); everything else is a non-nil error; errors of IsRecordsEquals / the current-row query propagate; (C09.status) with C01.status that error reaches BranchRollback as a failure status and the undo transaction is rolled back (C01.tx), so neither rows nor undo log are touched. (C09.lock) the current rows are read with SELECT ... FOR UPDATE, so no foreign write can land between the comparison and the compensating statement; (C09.equal) structural part of the equality: in the records/rows comparison a field or nested comparison that answers 'not equal' makes the whole answer false, and the value normaliser of the field equality (the function answering (float64, true)) accepts numeric reflect kinds only, so strings, byte slices and times are compared exactly. NOT decided: the remaining value semantics of the equality (floating-point comparison of 64-bit integers beyond 2^53, see C08's BIGINT finding) and the histories."
 	r.Trusted = []string{"go/types, go/cfg", "database/sql"}
 	w := r.W
 	u := resolveUndoWorld(r, "C09.anchor")
@@ -187,6 +187,34 @@ func checkC09(r *core.Run) {
 		fns = append(fns, f)
 	}
 	errDiscipline(r, "C09.threeway", dedupFns(fns), c01Idioms)
+	// ---- C09.lock: the read of the current rows is a locking read
+	{
+		n := 0
+		for _, f := range dedupFns(append(reachFrom(w, []*core.FuncInfo{v}, pUndoExec), v)) {
+			queries := false
+			for _, cs := range w.Calls(f) {
+				if cs.Static != nil && cs.Static.Pkg() != nil && cs.Static.Pkg().Path() == pSQL && strings.HasPrefix(cs.Static.Name(), "Query") {
+					queries = true
+				}
+			}
+			if !queries {
+				continue
+			}
+			r.Fn(f)
+			for _, c := range stringConstsIn(f) {
+				if firstWord(c) != "SELECT" {
+					continue
+				}
+				n++
+				r.Sites++
+				r.Check(strings.Contains(strings.ToUpper(c), "FOR UPDATE"), "C09.lock", core.ShortKey(f.Obj)+" reads the current rows with a locking read", w.Pos(f.Decl.Pos()), "SELECT ... FOR UPDATE",
+					"the rows are compared with the after image after a plain snapshot read ('"+c+"'): a foreign write that is uncommitted, or commits between this read and the compensating statement, is not seen, and the before image is written over it while rollback reports success")
+			}
+		}
+		if n == 0 {
+			r.Bad("C09.lock", "current-rows query of the data validation", w.Pos(v.Decl.Pos()), "no SELECT text found in the functions that query the current rows")
+		}
+	}
 	if eqFn != nil {
 		c09Equal(r, w.Info(eqFn))
 	} else {
